@@ -110,27 +110,7 @@ def generate(rng, tier, r):
 
 
 def _scripted_module(ts, period, script):
-    import jax
-    import jax.numpy as jnp
-    import equinox as eqx
-    from jinns.validation._validation import AbstractValidationModule
-
-    class Scripted(AbstractValidationModule):
-        call_every: int = eqx.field(kw_only=True)
-        stops: jax.Array = eqx.field(kw_only=True)
-        improved: jax.Array = eqx.field(kw_only=True)
-        k: jax.Array = eqx.field(kw_only=True)
-
-        def __call__(self, params):
-            L = self.stops.shape[0]
-            kk = jnp.minimum(self.k, L - 1)
-            fp = sum(jnp.sum(x) for x in jax.tree_util.tree_leaves(params))
-            crit = fp + self.k.astype(fp.dtype)
-            new = eqx.tree_at(lambda t: t.k, self, self.k + 1)
-            return new, self.stops[kk], crit, self.improved[kk]
-
-    return Scripted(call_every=period, stops=jnp.asarray([s["stop"] for s in script]),
-                    improved=jnp.asarray([s["improved"] for s in script]), k=jnp.zeros([], jnp.int32))
+    return ts.scripted_validation(period, script)
 
 
 def execute(program, ctx):
